@@ -19,7 +19,7 @@ def api_binary(san, buf_units, hbuf_units):
         defs["WENCRY_VERIF_HBUF_UNITS"] = str(hbuf_units)
     srcs = [s for s in API_SRCS if os.path.exists(os.path.join(wbuild.VERIF, s))]
     name = "apih_%s_b%s_h%s" % (san, buf_units or "prod", hbuf_units or "prod")
-    return wbuild.build(name, san, srcs, defines=defs, log=log)
+    return wbuild.build(name, san, srcs, defines=defs, events=True, log=log)
 
 
 def run_api(chk, prop, variants, san="asan", nshards=16, extra_args=None, stall_s=12.0):
@@ -37,7 +37,7 @@ def run_api(chk, prop, variants, san="asan", nshards=16, extra_args=None, stall_
         sr.run()
         vtag = "chunk=%dB,refill=%dB" % ((bu or 0x100000) * 16, (hu or 0x80000) * 64)
         for c in sr.crashes:
-            if c.get("kind") == "harness":
+            if c.get("kind") == "harness" or "harness-bug@" in str(c.get("key")):
                 raise HarnessFailure("harness failure in %s: %s" % (prop, (c.get("stderr") or "")[-2000:]))
             chk.add_violation("%s|%s|%s" % (prop, c["kind"], c["key"]),
                               "%s while running a case (%s)" % (c["kind"], c["key"]), variant=vtag, case=c.get("idx"),
